@@ -17,6 +17,7 @@ import (
 	"runtime"
 	"sort"
 	"strconv"
+	"strings"
 	"sync"
 
 	. "verifharness/cmd/c13/ws"
@@ -134,6 +135,25 @@ func symlinkInside(state, kind string) *WS {
 	}
 	ws.Files = []WFile{target, {Path: "pol/clean.rego", Pkg: "pol", ID: 2}}
 	ws.Git.States[target.Path] = state
+	return ws
+}
+
+// symlinkLeaving: a tracked, unmodified symbolic link to a FILE that lies outside of the work tree (in no repository, or
+// in another repository where it has the given state): the command reads and writes THROUGH the link, git's status of the
+// work tree knows the link only (predicate only: the model has one name per file)
+func symlinkLeaving(where, state, kind string) *WS {
+	ws := &WS{Name: fmt.Sprintf("%s/%s/symlink-leaving-%s", state, kind, where), Policy: "error", NoForce: true, AbsArgs: true,
+		Git:       &GitSpec{States: map[string]string{}, IgnoreDirs: []string{"ign/"}, RepoDirs: []string{"in"}},
+		RegalDirs: []string{"in"}, Symlinks: map[string]string{"in/pol/link.rego": "../../" + where + "/t.rego"}, Args: []string{"in/pol"}}
+	target := WFile{Path: where + "/t.rego", Pkg: "pol", ID: 1, Dirty: kind == "content"}
+	if kind != "content" {
+		target.Pkg = "moved.pol"
+	}
+	ws.Files = []WFile{target, {Path: "in/pol/clean.rego", Pkg: "pol", ID: 2}}
+	if where == "other" { // the link's target lies in another repository
+		ws.Git.RepoDirs = append(ws.Git.RepoDirs, "other")
+		ws.Git.States[target.Path] = state
+	}
 	return ws
 }
 
@@ -380,6 +400,196 @@ func submoduleScenarios(tier string) []*WS {
 	return out
 }
 
+// ---- submodules whose NAME is not their path, nested, not checked out ------------------------------------------------
+//
+// A submodule has a name (the key of its section in .gitmodules / .git/config, and of its directory under .git/modules) and a
+// path (where it is checked out).  The two are equal only by default: `git submodule add --name X url path` chooses the
+// name, `git mv old new` keeps the name `old` and changes the path.  Submodules nest (each level with its own status),
+// and a registered submodule need not be checked out (an empty directory).  Whatever the layout: a file with uncommitted
+// changes inside ANY checked-out submodule below the argument must not be touched.
+type subLayout struct {
+	tag      string
+	repoDirs []string          // besides the superproject ""
+	opts     map[string]SubOpt // per submodule directory
+	targets  []string          // directories (one file to change in each); the first carries the state under test
+}
+
+var subLayouts = []subLayout{
+	{"named", []string{"policies/lib"}, map[string]SubOpt{"policies/lib": {Name: "shared-lib"}}, []string{"policies/lib/x"}},
+	{"moved", []string{"policies/lib"}, map[string]SubOpt{"policies/lib": {MovedFrom: "vendor/lib"}}, []string{"policies/lib/x"}},
+	{"moved-up", []string{"lib"}, map[string]SubOpt{"lib": {MovedFrom: "third_party/deep/lib"}}, []string{"lib"}},
+	{"named-like-other-dir", []string{"lib"}, map[string]SubOpt{"lib": {Name: "pol"}}, []string{"lib/x"}},
+	{"nested", []string{"sub", "sub/inner"}, nil, []string{"sub/inner/pol"}},
+	{"nested-outer-dirty", []string{"sub", "sub/inner"}, nil, []string{"sub/pol", "sub/inner/pol"}},
+	{"nested-named-inner", []string{"sub", "sub/inner"}, map[string]SubOpt{"sub/inner": {Name: "core"}}, []string{"sub/inner/pol"}},
+	{"nested-in-named", []string{"sub", "sub/inner"}, map[string]SubOpt{"sub": {Name: "outer-name"}}, []string{"sub/inner/pol"}},
+	{"nested-in-moved", []string{"sub", "sub/inner"}, map[string]SubOpt{"sub": {MovedFrom: "old/place"}}, []string{"sub/inner/pol"}},
+	{"two-plain+named", []string{"policies/plain", "policies/lib"}, map[string]SubOpt{"policies/lib": {Name: "shared-lib"}}, []string{"policies/lib/x", "policies/plain/x"}},
+	{"two-swapped-names", []string{"a", "b"}, map[string]SubOpt{"a": {Name: "b"}, "b": {Name: "a"}}, []string{"a/x", "b/x"}},
+	{"uninit-sibling", []string{"sub", "lib"}, map[string]SubOpt{"lib": {Deinit: true}}, []string{"sub/pol"}},
+	{"uninit-only", []string{"lib"}, map[string]SubOpt{"lib": {Deinit: true}}, []string{"pol/x"}},
+	{"uninit-named+named", []string{"sub", "lib"}, map[string]SubOpt{"lib": {Deinit: true, Name: "gone"}, "sub": {Name: "kept"}}, []string{"sub/pol"}},
+}
+
+func subLayoutWS(l subLayout, st, kind string, args []string, abs bool) *WS {
+	ws := &WS{Name: fmt.Sprintf("submodule-%s/%s/%s/args=%v", l.tag, st, kind, args), Policy: "error", NoForce: true, AbsArgs: abs,
+		RegalDirs: []string{""}, Args: args,
+		Git: &GitSpec{States: map[string]string{}, IgnoreDirs: []string{"ign/"}, RepoDirs: append([]string{""}, l.repoDirs...),
+			Submodules: map[string]string{}, SubOpts: l.opts}}
+	for _, d := range l.repoDirs {
+		ws.Git.Submodules[d] = "file"
+	}
+	for i, d := range l.targets {
+		pkg := ""
+		for _, c := range d {
+			if c == '/' {
+				pkg += "."
+			} else if c == '-' {
+				pkg += "_"
+			} else {
+				pkg += string(c)
+			}
+		}
+		t := WFile{Path: d + "/t.rego", Pkg: pkg, ID: i + 1, Dirty: kind == "content"}
+		if kind != "content" {
+			t.Pkg = "moved." + pkg
+		}
+		ws.Files = append(ws.Files, t)
+		ws.Git.States[t.Path] = st
+	}
+	ws.Files = append(ws.Files, WFile{Path: "pol/clean.rego", Pkg: "pol", ID: 9})
+	for _, a := range args {
+		if a != "" {
+			ws.EmptyDirs = append(ws.EmptyDirs, a)
+		}
+	}
+	return ws
+}
+
+func submoduleNameScenarios(tier string) []*WS {
+	var out []*WS
+	sts := []string{"modified", "staged", "untracked", "clean"}
+	n := 0
+	for li, l := range subLayouts {
+		parent := filepath.Dir(l.repoDirs[0])
+		if parent == "." {
+			parent = ""
+		}
+		argsets := [][]string{{""}, {parent}, {"pol", l.repoDirs[0]}}
+		if parent == "" {
+			argsets = argsets[:1]
+		}
+		for si, st := range sts {
+			for ki, kind := range []string{"content", "move"} {
+				for ai, args := range argsets {
+					n++
+					// quick: every layout with a modified file and a content fix from the superproject, + one more state x kind x
+					// argument list by rotation; thorough: the product (the argument list with the submodule itself: content only)
+					if tier != "thorough" && !(ai == 0 && st == "modified" && kind == "content") && !(si == (li+1)%len(sts) && ki == li%2 && ai == li%len(argsets)) {
+						continue
+					}
+					if ai == 2 && kind == "move" {
+						continue
+					}
+					out = append(out, subLayoutWS(l, st, kind, args, n%2 == 0))
+				}
+			}
+		}
+	}
+	return out
+}
+
+// ---- somebody else writes while the command runs ---------------------------------------------------------------------
+//
+// The property speaks about the files as they are when the command replaces them: a file saved (by an editor, a
+// formatter, another tool) while `regal fix` is reading and linting has uncommitted changes at the moment of the write.
+// The moment of the concurrent write is pinned down by the command itself (see ws.ConcSpec): "fifo" = while the input
+// files are being read (a.rego was read before, z.rego is read after the edit), "debug" = in the middle of the first
+// lint run (everything was read before).
+func concurrentScenarios(tier string) []*WS {
+	var out []*WS
+	n := 0
+	for _, mode := range []string{"fifo", "debug"} {
+		for _, which := range []string{"before", "after", "both"} { // which target (relative to the pipe, in reading order) is edited
+			for _, kind := range []string{"content", "move"} {
+				for _, how := range []string{"append-dirty", "rewrite-clean", "create-move-target", "bystander"} {
+					for _, sp := range []string{"abs", "rel-from-root", "rel-from-subdir"} {
+						n++
+						if how == "create-move-target" && kind != "move" {
+							continue
+						}
+						if mode == "debug" && which != "before" { // everything was read when the lint runs: one position
+							continue
+						}
+						if tier != "thorough" {
+							// quick: every (mode, which, kind, how) once, the spelling by rotation
+							if sp != []string{"abs", "rel-from-root", "rel-from-subdir"}[(n/3)%3] {
+								continue
+							}
+						}
+						prefix := ""
+						if n%4 == 1 {
+							prefix = "x/y/"
+						}
+						ws := &WS{Name: fmt.Sprintf("concurrent-%s/%s/%s/%s/%s", mode, which, kind, how, sp), Policy: "error", NoForce: true,
+							RegalDirs: []string{strings.TrimSuffix(prefix, "/")}, Git: &GitSpec{States: map[string]string{}, RepoDirs: []string{""}},
+							Concurrent: &ConcSpec{Mode: mode, Edits: map[string]string{}}}
+						a := WFile{Path: prefix + "pol/a.rego", Pkg: "pol", ID: 1, Dirty: kind == "content"}
+						z := WFile{Path: prefix + "pol/z.rego", Pkg: "pol", ID: 2, Dirty: kind == "content"}
+						if kind == "move" {
+							a.Pkg, z.Pkg = "moved.pol", "moved.pol"
+						}
+						by := WFile{Path: prefix + "pol/by.rego", Pkg: "pol", ID: 3}
+						ws.Files = []WFile{a, by, z}
+						if mode == "fifo" {
+							ws.Concurrent.Fifo, ws.Concurrent.FifoContent = prefix+"pol/m.rego", "package pol\n\nfrompipe := 1\n"
+						} else {
+							ws.Concurrent.Trigger = "merged provided and user config"
+						}
+						var targets []WFile
+						switch which {
+						case "before":
+							targets = []WFile{a}
+						case "after":
+							targets = []WFile{z}
+						default:
+							targets = []WFile{a, z}
+						}
+						for _, t := range targets {
+							switch how {
+							case "append-dirty": // the user adds a rule (and another comment the fixer would touch)
+								ws.Concurrent.Edits[t.Path] = Content(t) + fmt.Sprintf("\n#bad\nedit%d := %d\n", t.ID, t.ID)
+							case "rewrite-clean": // the user repairs the file by hand and adds a rule
+								u := t
+								u.Dirty = false
+								if kind == "move" {
+									u.Pkg = "pol"
+								}
+								ws.Concurrent.Edits[t.Path] = Content(u) + fmt.Sprintf("\nedit%d := %d\n", t.ID, t.ID)
+							case "create-move-target": // a new file appears where the command is about to put the moved one
+								ws.Concurrent.Edits[prefix+"moved/pol/"+filepath.Base(t.Path)] = fmt.Sprintf("package moved.pol\n\nnew%d := %d\n", t.ID, t.ID)
+							case "bystander": // a file the command has nothing to fix in
+								ws.Concurrent.Edits[by.Path] = Content(by) + "\nedit3 := 3\n"
+							}
+						}
+						argdir := prefix + "pol"
+						switch sp {
+						case "abs":
+							ws.Args, ws.AbsArgs = []string{argdir}, true
+						case "rel-from-root":
+							ws.Args = []string{argdir}
+						case "rel-from-subdir":
+							ws.Args, ws.Cwd = []string{argdir}, argdir
+						}
+						out = append(out, ws)
+					}
+				}
+			}
+		}
+	}
+	return out
+}
+
 func genRandomMulti(r *hutil.Rng, n int) *WS {
 	pool := []place{plA, plAsub, plN, plB, plNu, plBu, plA, plN}
 	k := 2 + r.Below(2)
@@ -572,11 +782,21 @@ func main() {
 					cases = append(cases, symlinkInside(st, kind))
 				}
 			}
+			// a link to a file outside of the work tree (predicate only)
+			for _, c := range [][3]string{{"out", "clean", "content"}, {"other", "modified", "content"}, {"other", "clean", "content"},
+				{"out", "clean", "move"}, {"other", "untracked", "content"}, {"other", "staged", "move"}} {
+				if tier != "thorough" && c[2] == "move" && c[0] == "other" {
+					continue
+				}
+				cases = append(cases, symlinkLeaving(c[0], c[1], c[2]))
+			}
 			// several arguments in several repositories / in none; relative arguments leading out of the working
 			// directory's repository; submodules
 			cases = append(cases, multiScenarios(tier)...)
 			cases = append(cases, relOutside()...)
 			cases = append(cases, submoduleScenarios(tier)...)
+			cases = append(cases, submoduleNameScenarios(tier)...)
+			cases = append(cases, concurrentScenarios(tier)...)
 			rng := hutil.NewRng(hutil.SeedFromEnv() ^ 0xC14)
 			nr, nm := 30, 10
 			if tier == "thorough" {
